@@ -7,8 +7,11 @@ use std::ops::Range;
 use similar::DiffOp;
 
 //@include prelude/diff_similar.rs
+//@include prelude/diff_axioms.rs
 
 verus! {
+
+broadcast use diff_axioms::axiom_str_len_bound;
 
 //@include prelude/diff_std.rs
 
@@ -170,11 +173,16 @@ spec fn ranges_within(r: Seq<Range<usize>>, b: int) -> bool {
     forall|i: int| 0 <= i < r.len() ==> (#[trigger] r[i]).end <= b
 }
 
+// the threshold of `line_diff`'s guard, pasted from /repo (the contract below states the property-level
+// bound 4096 as a literal: changing the constant makes the guard clause / the call of from_chars fail)
+//@item file=src/diff_parser.rs kind=const name=MAX_LINE_DIFF_LEN
+
 //@unit id=Dd file=src/diff_parser.rs fn=line_diff ret=r
 //@contract
     ensures
         ranges_wf(r@), // [Dd.post.ranges_wf]
         ranges_within(r@, line_bound(new)), // [Dd.post.ranges_within_line]
+        old.len() + new.len() > 4096 ==> r@.len() == 1 && r@[0].start == 0 && r@[0].end == line_bound(new), // [Dd.post.long_lines_are_not_diffed_by_character]
 //@edit rule=E3 find=<<new.char_indices().map(|(offset, _)| offset).collect()>>
 verif_char_byte_offsets(new)
 //@closure rule=E12 find=<<|char_index: usize|>> params=<<|char_index: usize|>> ret=<<b: usize>>
@@ -185,7 +193,6 @@ for op in it: diff.ops()
         invariant
             ranges_wf(result@), // [Dd.inv.ranges_wf]
             byte_offsets@.len() >= 1,
-            new.len() <= isize::MAX,
             forall|i: int| 0 <= i < byte_offsets@.len() ==> (#[trigger] byte_offsets@[i]) <= new.len(), // [Dd.inv.offsets_within_new]
             forall|i: int| 0 <= i < byte_offsets@.len() - 1 ==> (#[trigger] byte_offsets@[i]) < new.len(),
             byte_offsets@.len() == 1 ==> new.len() == 0,
